@@ -4,6 +4,8 @@
 // Oracles: differential + terminator/size invariant (C04), memory (C02), contract (C05).
 #include <etl/string.hpp>
 #include <etl/string_view.hpp>
+#include <etl/charconv.hpp>
+#include <etl/strings.hpp>
 
 #if !defined(SIM_PART)
     #define SIM_PART 0
@@ -51,6 +53,7 @@ enum Kind {
     K_COPYOUT,
     K_REL,
     K_MISUSE,
+    K_NUMBER,
     K_COUNT_
 };
 
@@ -59,7 +62,7 @@ std::vector<OpDef> const kOps = {
     {"clear", 2},    {"pop_back", 4}, {"swap", 4},          {"write", 4},        {"erase_value", 3}, {"plus", 3},    {"recreate", 5},
     {"find", 4},     {"rfind", 4},    {"find_first_of", 3}, {"find_last_of", 3}, {"find_first_not_of", 3},
     {"find_last_not_of", 3},          {"compare", 5},       {"affix", 4},        {"substr", 3},    {"copy_out", 2},  {"relational", 4},
-    {"misuse", 3},
+    {"misuse", 3},    {"number", 4},
 };
 
 template <typename Str, typename View>
@@ -728,6 +731,15 @@ struct StrDriver {
             step_misuse(st, a);
             return;
         }
+        if (kind == K_NUMBER) {
+            begin_op("number", a, static_cast<int>(st.k[2] % 3));
+            if constexpr (etl::is_same_v<Char, char>) {
+                step_number(st, a);
+            } else {
+                skip();
+            }
+            return;
+        }
         step_observe(st, kind, a, b);
     }
 
@@ -1264,6 +1276,94 @@ struct StrDriver {
         }
         }
         (void)sink;
+    }
+
+    // integer formatting inside a string history: to_string<N>, from_integer and to_chars into exact-size heap buffers
+    // of every length around the number of digits (too small is a refusal: an error result and nothing written outside)
+    void step_number(Step const& st, int a)
+    {
+        if constexpr (etl::is_same_v<Char, char>) {
+            S& v          = *obj[a];
+            M& m          = model[a];
+            int const var = static_cast<int>(st.k[2] % 3);
+            long long val = 0;
+            switch (st.k[1] % 8) {
+            case 0: val = static_cast<long long>(st.k[0] % 10); break;
+            case 1: val = -static_cast<long long>(st.k[0] % 1000); break;
+            case 2: {
+                long long p10 = 1;
+                for (uint64_t i = 0; i < st.k[0] % 10; ++i) {
+                    p10 *= 10;
+                }
+                val = p10 - static_cast<long long>(st.v[0] % 2);
+                break;
+            }
+            case 3: val = 2147483647LL; break;
+            case 4: val = -2147483647LL - 1; break;
+            case 5: val = 0; break;
+            default: val = static_cast<long long>(st.k[0] % 100000) - 50000; break;
+            }
+            int const ival = static_cast<int>(val);
+            char ref[32];
+            int const digits = std::snprintf(ref, sizeof(ref), "%d", ival);
+            size_t const d   = static_cast<size_t>(digits);
+            ctx.log.kv("val", ival);
+            if (var == 0) {
+                // to_string<N>: needs room for the digits and a terminator in its internal buffer
+                bool const fits = d + 1 <= N;
+                if (!fits && !(st.flt != 0 && misuse)) {
+                    skip();
+                    return;
+                }
+                bool ok = call(a, !fits, false, [&] { v = etl::to_string<N>(ival); });
+                if (ok) {
+                    size_t const before = m.size();
+                    m.assign(ref, d);
+                    changed(before, d);
+                }
+                return;
+            }
+            // buffer lengths around the digit count, including zero and exact fit
+            size_t const len = static_cast<size_t>((st.k[0] / 7) % (d + 3));
+            ctx.log.kv("buflen", static_cast<long long>(len));
+            ExactBuf<char> buf(len);
+            char* end   = nullptr;
+            bool failed = false;
+            bool ok     = call(a, false, false, [&] {
+                if (var == 1) {
+                    auto const r = etl::strings::from_integer(ival, buf.p, len, 10);
+                    end          = r.end;
+                    failed       = r.error != etl::strings::from_integer_error::none;
+                } else {
+                    auto const r = etl::to_chars(buf.p, buf.p + len, ival);
+                    end          = const_cast<char*>(r.ptr);
+                    failed       = r.ec != etl::errc{};
+                }
+            });
+            if (!ok) {
+                return;
+            }
+            if (failed) {
+                // refusal: it must really not have fitted (a terminator is needed by from_integer, not by to_chars)
+                ++ctx.faultsFired;
+                ++ctx.boundaryEvents;
+                SIM_COUNT("F1.number_formatting_refused_small_buffer");
+                ctx.log.s(" ->refused");
+                return;
+            }
+            size_t const produced = static_cast<size_t>(end - buf.p);
+            if (produced != d || std::memcmp(buf.p, ref, d) != 0) {
+                ctx.violation("C10", "diff:number-formatting", "formatted digits differ from the C library"); // foreign
+                return;
+            }
+            if (produced <= N) {
+                size_t const before = m.size();
+                if (call(a, false, false, [&] { v.assign(buf.p, produced); })) {
+                    m.assign(ref, d);
+                    changed(before, d);
+                }
+            }
+        }
     }
 
     void step_observe(Step const& st, int kind, int a, int b)
